@@ -26,6 +26,8 @@ type counters struct {
 	Crashes           int64 `json:"worker_process_deaths"`
 	StarContradictory int64 `json:"star_checks_skipped_contradictory_star_registrations"`
 	DupRegistrations  int64 `json:"duplicate_registrations_without_replace"`
+	SpellingVariants  int64 `json:"calls_re_executed_in_another_spelling"`
+	IsolationChecks   int64 `json:"other_db_isolation_checks"`
 	ExcusedAfterError int64 `json:"order_anomalies_excused_because_an_earlier_call_returned_an_error"`
 }
 
@@ -49,6 +51,8 @@ func (c *counters) add(o *counters) {
 	c.Crashes += o.Crashes
 	c.ExcusedAfterError += o.ExcusedAfterError
 	c.DupRegistrations += o.DupRegistrations
+	c.SpellingVariants += o.SpellingVariants
+	c.IsolationChecks += o.IsolationChecks
 	c.StarContradictory += o.StarContradictory
 }
 
